@@ -40,7 +40,9 @@ def fixture_state(root, manifest_dir=None):
 
 
 def run_scenario(root, scenario, fail=(), workspace=None, manifest_rel=None):
-    """-> dict(outcome, message, log=[{n,prog,argv}], tmp_left=[...], fixture_same, path_dirs={path: listing})"""
+    """fail: invocation ordinals that exit 1; an entry "k!" is a *hard* failure of `docker run` k
+    (rejected at create time: the container never exists, later logs/exec/port on it fail too).
+    -> dict(outcome, message, log=[{n,prog,argv}], tmp_left=[...], fixture_same, path_dirs={path: listing})"""
     make_world(root)
     manifest_dir = os.path.join(root, "crate")
     extra_path = ""
@@ -64,7 +66,8 @@ def run_scenario(root, scenario, fail=(), workspace=None, manifest_rel=None):
     json.dump(scenario, open(sp, "w"))
     log = os.path.join(root, "cli.log")
     env = {"PATH": os.path.join(root, "bin") + extra_path, "TMPDIR": os.path.join(root, "tmp"), "CARGO_MANIFEST_DIR": manifest_dir,
-           "FAKECLI_LOG": log, "FAKECLI_FAIL": ",".join(str(i) for i in fail), "RUST_BACKTRACE": "0"}
+           "FAKECLI_LOG": log, "FAKECLI_FAIL": ",".join(str(i) for i in fail if isinstance(i, int)),
+           "FAKECLI_HARD": ",".join(i[:-1] for i in fail if isinstance(i, str)), "RUST_BACKTRACE": "0"}
     env.update(extra_env)
     r = subprocess.run([RUNNER, sp], env=env, cwd=root, stdout=subprocess.PIPE, stderr=subprocess.PIPE, timeout=600)
     res = {"outcome": "abort", "message": r.stderr.decode(errors="replace")[-300:], "exit": r.returncode}
